@@ -794,6 +794,7 @@ func (e *Env) index(x *EIndex) *SVal {
 		fr := &Frame{g: g, curState: e.cur}
 		dom, val := fr.mapRead(e.cur, v, mt, i)
 		r := g.iteVal(dom, val, g.zero(mt.Elem()))
+		r = g.shared(r)
 		// heap invariant: references stored in a map existed when they were stored
 		if g.inQuant == 0 && hasRefs(mt.Elem()) {
 			g.addAxiom(g.refFacts(e.cur, r))
@@ -908,7 +909,7 @@ func (e *Env) quant(x *EQuant) *SVal {
 							if g.privAsms == nil {
 								g.privAsms = map[string][]asmRec{}
 							}
-							g.privAsms[g.curOrigin] = append(g.privAsms[g.curOrigin], asmRec{0, t})
+							g.privAsms[g.curOrigin] = append(g.privAsms[g.curOrigin], asmRec{0, t, g.curRound})
 						}
 					}
 				}
@@ -1157,6 +1158,13 @@ func (e *Env) call(x *ECall) *SVal {
 				ref = v.Sub[0].Term
 			}
 			return mkBool(sAnd(sNot(sEq(ref, bv64(0))), sNot(g.allocated(e.old, ref))))
+		case "allocated": // allocated(p): p is nil or an object that exists in the current state
+			v := e.eval(x.Args[0])
+			ref := v.Term
+			if v.K == KSlice {
+				ref = v.Sub[0].Term
+			}
+			return mkBool(g.allocated(e.cur, ref))
 		case "isnil":
 			v := e.eval(x.Args[0])
 			if v.K == KIface {
@@ -1425,6 +1433,7 @@ func (e *Env) callPure(pf *PureFn, args []Expr) *SVal {
 		if v.T != nil && v.K == KPtr && v.T == types.Typ[types.UntypedNil] {
 			v = g.zero(pt)
 		}
+		v = g.shared(v)
 		penv.vars[pf.Params[i].Name] = v
 		argVals = append(argVals, v)
 	}
